@@ -30,6 +30,14 @@ def main(argv=None):
         import skv.contracts  # noqa: F401
 
         mod.run(chk)
+        # the class-level obligations every history-quantified property rests on (idempotent parts)
+        import json as _json
+
+        bundle = _json.load(open(os.path.join(os.path.dirname(os.path.abspath(__file__)), "props", "_bundle.json"))).get(a.pid)
+        if bundle:
+            from .props import _glue
+
+            _glue.integrity_bundle(chk, bundle)
     except Exception:
         chk.errors.append("exception in checker: " + traceback.format_exc()[-2000:])
     rc = chk.finish(**getattr(mod, "FINISH", {}))
